@@ -88,7 +88,7 @@ def shards(tier):
     return out
 
 
-def check_case(acc, cfg, env_seq, cover):
+def check_case(acc, cfg, env_seq, cover, split=None):
     spec = make_spec(cfg['alpha'], cfg['beta'], cfg['side'], cfg['topo'], cfg['cur'], cfg['w'])
     if spec is None:
         acc.outcomes['not-buildable'] += 1
@@ -98,8 +98,13 @@ def check_case(acc, cfg, env_seq, cover):
     spec['load'] = ['script', [ENV[i][1] * stall for i in env_seq]]
     n = len(env_seq)
     dt = [cfg['dt'], 'sec']
-    case = {'kind': 'case', 'cfg': cfg, 'env': list(env_seq)}
-    m, info = sim.run_schedule(spec, [('run', dt, [cfg['dt'] * (n - 1), 'sec'], duty, None)])
+    case = {'kind': 'case', 'cfg': cfg, 'env': list(env_seq), 'split': split}
+    if split:
+        ops = [('run', dt, [cfg['dt'] * (split - 1), 'sec'], duty, None),
+               ('run', dt, [cfg['dt'] * (n - split), 'sec'], duty, None)]
+    else:
+        ops = [('run', dt, [cfg['dt'] * (n - 1), 'sec'], duty, None)]
+    m, info = sim.run_schedule(spec, ops)
     acc.executions += 1
     if info['error']:
         acc.violation(f'C13/run-error/{info["error"][0]}', 'simulation runs', case, {'error': info['error']})
@@ -118,7 +123,7 @@ def check_case(acc, cfg, env_seq, cover):
     def emit(sfx, clause, k, detail):
         dd = dict(detail)
         dd.update(instant=k)
-        acc.violation(f'C13/{sfx}', clause, case, dd)
+        acc.violation(f'C13/{sfx}' + ('/continued-run' if split else ''), clause, case, dd)
 
     chk, amb = traj.locking(obs, chain, emit, info['dts'], info['starts'], cover)
     acc.transitions += chk
@@ -154,6 +159,11 @@ def run_shard(shard, tier):
         for cfg in shard['cfgs']:
             for s in deviations(hz, len(ENV), b):
                 check_case(acc, cfg, s, cover)
+            # continued runs: the held / moving state must carry over every split point
+            for s in deviations(hz, len(ENV), 1):
+                if sum(1 for x in s if x) == 1 and s.index(max(s)) <= 2:
+                    for split in range(3, hz - 1):
+                        check_case(acc, cfg, s, cover, split=split)
         acc.sample({'cfg': shard['cfgs'][0], 'mode': f'<= {b} deviations over {hz} instants',
                     'env_sequence': [ENV[i] for i in s]})
     for k, v in cover.items():
@@ -164,6 +174,6 @@ def run_shard(shard, tier):
 def replay(case):
     acc = Acc()
     if case.get('kind') == 'case':
-        check_case(acc, case['cfg'], tuple(case['env']), collections.Counter())
+        check_case(acc, case['cfg'], tuple(case['env']), collections.Counter(), split=case.get('split'))
         return acc.violations
     return run_shard(case['shard'], 'quick').violations
